@@ -396,7 +396,7 @@ func zzRunC08(r *sim.Run) {
 		nev := t.Choose("nevents", 5)
 		for i := 0; i < nev; i++ {
 			evs = append(evs, ev{time.Duration(200+t.Choose("ev.at", 40000)) * time.Millisecond,
-				[]string{"tip-better", "tip-better", "tip-worse", "tip-equal", "reject-on", "reject-off", "sync-lost", "sync-back"}[t.Choose("ev.kind", 8)]})
+				[]string{"tip-better", "tip-earlier", "tip-higher-quality", "tip-worse", "tip-later", "tip-lower-quality", "tip-equal", "reject-on", "reject-off", "sync-lost", "sync-back"}[t.Choose("ev.kind", 11)]})
 		}
 		sort.Slice(evs, func(i, j int) bool { return evs[i].at < evs[j].at })
 		runFor := time.Duration(8+t.Choose("runfor", 50)) * time.Second
@@ -411,7 +411,7 @@ func zzRunC08(r *sim.Run) {
 				}
 				time.Sleep(time.Until(start.Add(e.at)))
 				switch e.what {
-				case "tip-better", "tip-worse", "tip-equal":
+				case "tip-better", "tip-worse", "tip-equal", "tip-earlier", "tip-later", "tip-higher-quality", "tip-lower-quality":
 					cur := w.best
 					nh := w.newHash()
 					n := &blockchain.BlockNode{Hash: &nh, Height: cur.Height, Timestamp: cur.Timestamp, Quality: new(big.Int).Set(cur.Quality), CapSum: new(big.Int).Set(cur.CapSum)}
@@ -422,6 +422,20 @@ func zzRunC08(r *sim.Run) {
 						better = true
 					case "tip-worse":
 						n.CapSum.Sub(n.CapSum, big.NewInt(1))
+					// the chain's fork choice (mass-core blockchain.isPotentialNewBestChain): larger
+					// capacity sum, then the earlier timestamp, then the higher quality
+					case "tip-earlier":
+						n.Timestamp = n.Timestamp.Add(-3 * time.Second)
+						better = true
+					case "tip-later":
+						n.Timestamp = n.Timestamp.Add(3 * time.Second)
+					case "tip-higher-quality":
+						n.Quality.Add(n.Quality, big.NewInt(1))
+						better = true
+					case "tip-lower-quality":
+						if n.Quality.Sign() > 0 {
+							n.Quality.Sub(n.Quality, big.NewInt(1))
+						}
 					}
 					r.Event("t=%s competing tip (%s) at height %d delivered to %d waiters", zzClock(), e.what, cur.Height, len(w.waiters))
 					ws := w.waiters
